@@ -23,6 +23,12 @@ TEXT = {
  "C11": ("proof that localisation returns exactly the instants rendering to the given wall-clock reading, and of each refusal and its converse; stored epochs checked against the model on the pytz transition tables around every transition of ~60 zones; refusal outcomes compared on malformed inputs", "4.3"),
  "C12": ("proof over Q that a level is reported for a pair iff it lies between the samples (lower included, upper excluded), once, on the chord and inside the bracket; regrid compared bit-exactly (levels) with the Float model and within 1e-9 (positions) with the exact model", "5.2"),
  "C13": ("proof that every interval and crossing row is keyed by a series handed in, that each crossing value is the mean crossing of that series' own samples, that every crossed level is a grid level and the grid covers and does not exceed the observed range; row-by-row comparison and independent recomputation on the CLI tables", "5.7"),
+ "C14": ("proof over R that Spline.integrate is the interval integral of the clamped extension for all limits in either order (hence additive, antisymmetric, non-negative for a non-negative function), with FITPACK's evaluator and integrator as parameters under a stated contract; the glue is executed at Float on the values FITPACK returned during the real call and must agree bit for bit; the area clause is checked against an independent quad", "6.2"),
+ "C15": ("proof over R that the closed form equals the minimum plus the integral of the log-linear conductivity, is the minimum at and below the lowest knot, is continuous and non-decreasing; the implementation (nested quad) compared with the closed form at Float, scalar against array arguments bit for bit", "6.3"),
+ "C16": ("proof of the interpolation properties of the tabulated function, of the tabulated levels, of the transmissivity formula and its refusal, of the exact difference between the 201-cell (Python) and 200-cell (R) sums and of the bound on that term; the 201 knot values and the transmissivity compared with the transliterated published discretisation at Float", "6.4"),
+ "C17": ("proof over R, for any additive integral, that differences of the curve are the integrals between levels, that its mean is the requested mean, that it is monotone, refinement- and reversal-invariant, and of the table layout; compute_rise_curve compared with the model on the recorded integrals; the command's output parsed and compared row by row", "6.5"),
+ "C18": ("proof that the integrand is negative, the cell integrals additive and negative, that zero curvature gives the water balance with the rise curve, and of the ET average; compute_recession_curve compared with the model on the recorded quad values and with an independent quad of the integrand; the ET used by the command compared with the model meanET over Q; output rows and order checked", "6.6"),
+ "C19": ("proof, for every number of knots and of levels, that declared counts equal section lengths, that parameter names are the template's placeholders under case folding, that k-th observation, k-th instruction and k-th value line correspond, that PEST's reading of the simulator's vectors returns the fixed columns of the right lines, and that those columns are lossless exactly up to 22 characters; the six generated files compared line by line with the model and cross-checked against the real simulate output", "7"),
  "C20": ("proof that a trace that is one transaction is atomic at every crash point (and that a commit in the middle is not), that failed attempts are invisible, that steps with independent declared footprints commute; the hypothesis (one transaction, declared footprints) is checked on the real SQL trace of every step, and faults are injected at every statement", "8"),
 }
 NOTE = ("trusted: Lean kernel + audited axioms (propext, Classical.choice, Quot.sound); the hand-written model is tied to "
@@ -51,7 +57,7 @@ for p in props:
 
 m = {
  "version": 1,
- "setup_cmd": "cd lean && lake build SpowtdModel driver",
+ "setup_cmd": "cd lean && lake build SpowtdModel driver && cd .. && /venv/bin/python -c \"from harness import common; import sys; r = common.audit([]); print(r['problems']); sys.exit(0 if r['ok'] else 1)\"",
  "hooks": {"guard": "SPOWTD_VERIF", "enable": "no source hooks: the harness instruments sqlite3/scipy inside its own process (SPOWTD_VERIF=1 is set but read by nothing in /repo)",
            "baseline_off_cmd": "cd /repo && /venv/bin/python -m pytest -ra -q -p no:cacheprovider --timeout=900 --continue-on-collection-errors",
            "source_commits": [], "add_only": True},
